@@ -131,9 +131,45 @@ def run_model(lines):
     return [[[int(x) for x in part.split()] for part in l.split("|")] for l in out]
 
 
+def coq_crosscheck(lines, outs, rng, k=25):
+    """thorough tier: a sample of the cases is evaluated inside Coq (vm_compute on the
+    un-extracted [derive_line]) and compared with what the extracted OCaml printed;
+    returns (number compared, list of mismatching case lines)"""
+    idx = sorted(rng.sample(range(len(lines)), min(k, len(lines))))
+    d = os.path.join(CACHE, "pa")
+    os.makedirs(d, exist_ok=True)
+    path = os.path.join(d, "DC_%d.v" % os.getpid())
+    with open(path, "w") as f:
+        f.write("From SV Require Import Checkers.Driver.\nLocal Open Scope Z_scope.\n")
+        for i in idx:
+            f.write('Goal True. idtac "@@CASE %d". Abort.\n' % i)
+            f.write("Eval vm_compute in (derive_line [%s]).\n" % "; ".join(map(str, lines[i])))
+    rc, out = common.sh(["coqc", "-Q", os.path.join(common.COQ, "theories"), "SV", path], cwd=d, timeout=900)
+    for ext in (".v", ".vo", ".vok", ".vos", ".glob"):
+        try:
+            os.remove(path[:-2] + ext)
+        except OSError:
+            pass
+    try:
+        os.remove(os.path.join(d, "." + os.path.basename(path)[:-2] + ".aux"))
+    except OSError:
+        pass
+    if rc != 0:
+        raise RuntimeError("Coq cross-check file failed:\n" + out[-2000:])
+    bad = []
+    chunks = out.split("@@CASE ")[1:]
+    for ch in chunks:
+        i = int(ch.split("\n", 1)[0])
+        m = re.search(r"=\s*(\[.*?\])\s*:\s*list \(list Z\)", ch, re.S)
+        val = json.loads(re.sub(r"\s+", "", m.group(1)).replace(";", ",")) if m else None
+        if val != outs[i]:
+            bad.append(" ".join(map(str, lines[i])))
+    return len(chunks), bad
+
+
 # ------------------------------------------------------------------ one crate: generate, build, run, compare
 
-def check_crate(seed, n, n_types, stats):
+def check_crate(seed, n, n_types, stats, crosscheck=False):
     """returns (violations, samples, counters) ; a violation is a dict"""
     rng = random.Random(seed * 7919 + n * 104729 + 18)
     c = dg.gen_crate(rng, n_types)
@@ -169,6 +205,11 @@ def check_crate(seed, n, n_types, stats):
         return violations, [], c
     lines = [dg.encode_case(c, case, slots) for case in c.cases] + [dg.encode_storage_case(c.cattrs[sc["k"]]) for sc in c.scases]
     outs = run_model(lines)
+    if crosscheck:
+        cnt, bad = coq_crosscheck(lines, outs, rng)
+        stats["kinds"]["vm_compute-crosschecked"] += cnt
+        if bad:
+            raise RuntimeError("extracted model and vm_compute disagree on: " + bad[0][:1500])
     samples = []
     for case, line, mo in zip(c.cases, lines, outs[:len(c.cases)]):
         stats["evaluations"] += 1
@@ -295,7 +336,7 @@ def check_derive(pid, tier, seed):
     harness_error = None
     try:
         for n in range(n_crates):
-            v, s, c = check_crate(seed, n, n_types, stats)
+            v, s, c = check_crate(seed, n, n_types, stats, crosscheck=(tier == "thorough" and n == 0))
             violations += v
             samples += s
             shape_histogram(c, hist)
